@@ -5,6 +5,7 @@
 import TaRs.Lemmas.Core.MoneyFlowIndex
 import TaRs.Gen.MoneyFlowIndex
 import TaRs.Lemmas.RsLemmas
+import TaRs.Lemmas.Total.MoneyFlowIndex
 namespace TaRs.Gen.MoneyFlowIndex
 open TaRs TaRs.Rs
 
@@ -52,24 +53,7 @@ def out (P N : F) : F :=
   if Scalar.beq (Scalar.add P N) (Scalar.lit 0 0) then Scalar.lit 50 0
   else Scalar.mul (Scalar.div P (Scalar.add P N)) (Scalar.lit 100 0)
 
-/-! field projections commute with `if` (rewrite rules for `rs_exec_lazy` / `rs_exec_prune`) -/
-theorem ite_period (c : Prop) [Decidable c] (a b : MoneyFlowIndex F) :
-    (if c then a else b).period = if c then a.period else b.period := ite_proj _ c a b
-theorem ite_index (c : Prop) [Decidable c] (a b : MoneyFlowIndex F) :
-    (if c then a else b).index = if c then a.index else b.index := ite_proj _ c a b
-theorem ite_count (c : Prop) [Decidable c] (a b : MoneyFlowIndex F) :
-    (if c then a else b).count = if c then a.count else b.count := ite_proj _ c a b
-theorem ite_prev (c : Prop) [Decidable c] (a b : MoneyFlowIndex F) :
-    (if c then a else b).previous_typical_price
-      = if c then a.previous_typical_price else b.previous_typical_price := ite_proj _ c a b
-theorem ite_pos (c : Prop) [Decidable c] (a b : MoneyFlowIndex F) :
-    (if c then a else b).total_positive_money_flow
-      = if c then a.total_positive_money_flow else b.total_positive_money_flow := ite_proj _ c a b
-theorem ite_neg (c : Prop) [Decidable c] (a b : MoneyFlowIndex F) :
-    (if c then a else b).total_negative_money_flow
-      = if c then a.total_negative_money_flow else b.total_negative_money_flow := ite_proj _ c a b
-theorem ite_deque (c : Prop) [Decidable c] (a b : MoneyFlowIndex F) :
-    (if c then a else b).deque = if c then a.deque else b.deque := ite_proj _ c a b
+/-! the field projections commute with `if`: `ite_period` … `ite_deque` are in `Total/MoneyFlowIndex.lean` -/
 
 theorem cursor_lt (s : MoneyFlowIndex F) (h : WF s) : cursor s < s.period := by
   have := h.pos
@@ -131,19 +115,6 @@ theorem next_eq (s : MoneyFlowIndex F) (b : Bar F) (ev : F) (h : WF s) (h0 : 0 <
   all_goals unfold cursor popPos popNeg pushPos pushNeg stored out
   rs_exec_prune [ite_period, ite_index, ite_count, ite_prev, ite_pos, ite_neg, ite_deque]
   all_goals (first | rfl | contradiction)
-
-/-- `nextBar` never panics on a well-formed state, keeps it well-formed and keeps the period -/
-theorem nextBar_total (s : MoneyFlowIndex F) (b : Bar F) (h : WF s) :
-    ∃ r, s.nextBar b = some r ∧ WF r.1 ∧ r.1.period_fn = s.period_fn := by
-  have hcur := cursor_lt s h
-  have hix : cursor s < s.deque.size := by have := h.size; omega
-  obtain ⟨hp, hs, hsz, hi, hc⟩ := id h
-  by_cases h0 : s.count = 0
-  · exact ⟨_, next_eq_first s b h h0, ⟨hp, hs, hsz, hcur, by dsimp only; omega⟩, rfl⟩
-  · refine ⟨_, next_eq s b _ h (by omega) (Array.getElem?_eq_getElem hix),
-      ⟨hp, hs, by simpa using hsz, hcur, ?_⟩, rfl⟩
-    dsimp only
-    split <;> omega
 
 /-! ### the zero-total-flow guard (no well-formedness needed) -/
 
